@@ -96,7 +96,7 @@ def run(c):
                     shutil.rmtree(os.path.join(sc.root, pkg), ignore_errors=True)
                     evs = run_package(c, sc, pkg + "r", rest, c.seed)
                 elif not cul:
-                    evs[0]["shape"] = None
+                    pass
                     evs[0]["shapes"] = shapes
                 else:
                     evs = []
